@@ -216,3 +216,117 @@ func sharedCase(c *Ctx, ki, li, mask int, swap, nested bool) bool {
 	}
 	return true
 }
+
+// Two multi-valued declarations given the SAME default slice by the caller: a value written for one of them never
+// changes what the other one holds (its declared default when it was not given a value).
+func sharedDefaultCases(c *Ctx) {
+	n := 0
+	for kind := 0; kind < 3; kind++ {
+		for layout := 0; layout < 2; layout++ { // 0: two options, 1: option and argument
+			for mask := 0; mask < 4; mask++ {
+				for nested := 0; nested < 2; nested++ {
+					n++
+					sharedDefaultCase(c, kind, layout, mask, nested == 1)
+				}
+			}
+		}
+	}
+	c.Note("one default slice behind two declarations", fmt.Sprintf("%d cases: strings / ints / floats64 x {two options, option and argument} x every subset given on the command line x {root, sub-command}", n))
+}
+
+func sharedDefaultCase(c *Ctx, kind, layout, mask int, nested bool) {
+	kname := []string{"strings", "ints", "floats64"}[kind]
+	vals := [][2]string{{"s1", "s2"}, {"5", "6"}, {"0.5", "6.25"}}[kind]
+	dflt := []string{"[d1 d2]", "[7 8]", "[1.5 2.5]"}[kind]
+	var argv []string
+	if mask&1 != 0 {
+		argv = append(argv, "-x="+vals[0])
+	}
+	if mask&2 != 0 {
+		if layout == 0 {
+			argv = append(argv, "-y="+vals[1])
+		} else {
+			argv = append(argv, vals[1])
+		}
+	}
+	var reads [2]func() string
+	ran := 0
+	app := cli.App("app", "")
+	app.ErrorHandling = flag.ContinueOnError
+	setup := func(cmd *cli.Cmd) {
+		cmd.Spec = "[-x] [-y]"
+		if layout == 1 {
+			cmd.Spec = "[-x] [Y]"
+		}
+		switch kind {
+		case 0:
+			d := []string{"d1", "d2"}
+			p := cmd.Strings(cli.StringsOpt{Name: "x", Value: d})
+			reads[0] = func() string { return fmt.Sprint(*p) }
+			var q *[]string
+			if layout == 0 {
+				q = cmd.Strings(cli.StringsOpt{Name: "y", Value: d})
+			} else {
+				q = cmd.Strings(cli.StringsArg{Name: "Y", Value: d})
+			}
+			reads[1] = func() string { return fmt.Sprint(*q) }
+		case 1:
+			d := []int{7, 8}
+			p := cmd.Ints(cli.IntsOpt{Name: "x", Value: d})
+			reads[0] = func() string { return fmt.Sprint(*p) }
+			var q *[]int
+			if layout == 0 {
+				q = cmd.Ints(cli.IntsOpt{Name: "y", Value: d})
+			} else {
+				q = cmd.Ints(cli.IntsArg{Name: "Y", Value: d})
+			}
+			reads[1] = func() string { return fmt.Sprint(*q) }
+		default:
+			d := []float64{1.5, 2.5}
+			p := cmd.Floats64(cli.Floats64Opt{Name: "x", Value: d})
+			reads[0] = func() string { return fmt.Sprint(*p) }
+			var q *[]float64
+			if layout == 0 {
+				q = cmd.Floats64(cli.Floats64Opt{Name: "y", Value: d})
+			} else {
+				q = cmd.Floats64(cli.Floats64Arg{Name: "Y", Value: d})
+			}
+			reads[1] = func() string { return fmt.Sprint(*q) }
+		}
+		cmd.Action = func() { ran++ }
+	}
+	full := []string{"app"}
+	if nested {
+		app.Command("sub", "", setup)
+		full = append(full, "sub")
+	} else {
+		setup(app.Cmd)
+	}
+	full = append(full, argv...)
+	o := runIsolated(func() error { return app.Run(full) })
+	c.Count("evaluations", 1)
+	c.Count("shared_default_slice_cases", 1)
+	if mask != 0 {
+		c.Count("nontrivial", 1)
+	}
+	if !c.On("C06") {
+		return
+	}
+	key := fmt.Sprintf("shared-default-slice type=%s layout=%d argv=%q nested=%v", kname, layout, argv, nested)
+	cs := Case{"shared_default": true, "kind": kind, "layout": layout, "mask": mask, "nested": nested}
+	if !(o.Returned && o.Err == nil && ran == 1) {
+		c.Violation("C06", key, cs, "accepted, the Action runs once", fmt.Sprintf("returned=%v err=%v panicked=%v action_runs=%d", o.Returned, o.Err, o.Panicked, ran))
+		return
+	}
+	want := [2]string{dflt, dflt}
+	if mask&1 != 0 {
+		want[0] = "[" + vals[0] + "]"
+	}
+	if mask&2 != 0 {
+		want[1] = "[" + vals[1] + "]"
+	}
+	got := [2]string{reads[0](), reads[1]()}
+	if got != want {
+		c.Violation("C06", key, cs, fmt.Sprintf("the two variables hold %v (both declared with the same default slice %s)", want, dflt), fmt.Sprintf("%v", got))
+	}
+}
